@@ -58,9 +58,19 @@ func (calc *convexHullCalculator) getConvexHull() geom.T {
 
 	reducedPts := transform.UniqueCoords(calc.layout, comparator{}, calc.inputPts)
 
-	// use heuristic to reduce points, if large
-	if len(calc.inputPts)/calc.stride > 50 {
-		reducedPts = calc.reduce(calc.inputPts)
+	// With fewer than three distinct points the hull is that point or that
+	// segment (the scan below needs three coordinates to start).
+	switch len(reducedPts) / calc.stride {
+	case 1:
+		return geom.NewPointFlat(calc.layout, reducedPts)
+	case 2:
+		return geom.NewLineStringFlat(calc.layout, reducedPts)
+	}
+
+	// use heuristic to reduce points, if large. Only the de-duplicated copy is
+	// reduced and sorted, never the caller's array.
+	if len(reducedPts)/calc.stride > 50 {
+		reducedPts = calc.reduce(reducedPts)
 	}
 	// sort points for Graham scan.
 	calc.preSort(reducedPts)
